@@ -889,10 +889,15 @@ pub fn ill_typed(rng: &mut Rng, text: &str) -> String {
     0 if !idents.is_empty() => {
       let (s, e) = *rng.pick(&idents);
       let t = &text[s..e];
+      // a name that occurs nowhere else: its only roots are this occurrence and the diagnostic
+      // about it
+      let n = rng.below(100_000);
       let new = if t.as_bytes()[0].is_ascii_uppercase() {
-        *rng.pick(&["Renamed", "RenamedToSomethingVeryLong"])
+        if rng.chance(1, 3) { format!("Renamed{n}") } else { format!("RenamedToSomethingVeryLong{n}") }
+      } else if rng.chance(1, 3) {
+        format!("renamed{n}")
       } else {
-        *rng.pick(&["renamed", "renamedToSomethingVeryLong"])
+        format!("renamedToSomethingVeryLong{n}")
       };
       format!("{}{}{}", &text[..s], new, &text[e..])
     }
